@@ -31,6 +31,8 @@ def cases(tier, seed):
     from vf.gen import index as IX
 
     rnd = random.Random(11000 + seed)
+    for rep_, inter_, reader_ in itertools.product(["dense", "linop", "diag"], [True, False], ["variance", "stddev"]):
+        yield {"kind": "tiny_variance", "n": 3, "t": 2, "interleaved": inter_, "rep": rep_, "reader": reader_, "seed": rnd.randrange(10**6)}
     # basics + constructors
     for (n, t), b, inter in itertools.product(SHAPES, BATCHES, [True, False]):
         for rep in range(1 if tier == "quick" else 4):
@@ -172,7 +174,54 @@ def run_case(case, ctx):
         return _basics(case, ctx, g)
     if kind == "ctor":
         return _ctor(case, ctx, g)
+    if kind == "tiny_variance":
+        return _tiny_variance(case, ctx, g)
     return _index(case, ctx, g)
+
+
+def _tiny_variance(case, ctx, g):
+    """an output in tiny units (variance below the reporting floor): `variance` / `stddev` report the floor, and reading them
+    leaves the joint covariance, the caller's tensors and later draws from given base samples as they were"""
+    import warnings
+
+    import torch
+    from linear_operator.operators import DenseLinearOperator, DiagLinearOperator
+
+    from gpytorch import settings as S
+    from gpytorch.distributions import MultitaskMultivariateNormal as MT
+    from vf import util
+
+    n, t, inter = case["n"], case["t"], case["interleaved"]
+    nt = n * t
+    floor = S.min_variance.value(torch.double)
+    sc = torch.ones(nt)
+    sc[1] = 1e-6
+    if case["rep"] == "diag":
+        v = (util.rand(g, nt) + 0.2) * sc**2
+        K = torch.diag(v)
+        handed = v.clone()
+        op = DiagLinearOperator(handed)
+    else:
+        a = util.randn(g, nt, nt)
+        K = sc.unsqueeze(-1) * (a @ a.T / nt + 0.5 * torch.eye(nt)) * sc
+        handed = K.clone()
+        op = DenseLinearOperator(handed) if case["rep"] == "linop" else handed
+    keep = handed.clone()
+    d = MT(util.randn(g, n, t), op, interleaved=inter)
+    e = util.randn(g, 3, n, t)
+    e_keep = e.clone()
+    with torch.no_grad(), warnings.catch_warnings():
+        warnings.simplefilter("ignore")
+        var = d.variance if case["reader"] == "variance" else d.stddev**2
+        dg = torch.diagonal(K).clamp_min(floor)
+        ref = dg.reshape(n, t) if inter else dg.reshape(t, n).T
+        ctx.close("variance", var, ref, (0.0, 1e-9), cls="tiny:" + case["reader"] + ":" + case["rep"])
+        ctx.close("reading_leaves_distribution_alone", d.covariance_matrix, K, (0.0, 1e-13), cls="covariance:" + case["rep"], reader=case["reader"])
+        ctx.expect("reading_leaves_distribution_alone", bool(torch.equal(handed, keep)), f"reading .{case['reader']} changed the tensor the caller built the distribution from", rep=case["rep"])
+        s1 = d.rsample(base_samples=e)
+        ctx.expect("base_samples_not_mutated", bool(torch.equal(e, e_keep)), "rsample(base_samples=e) changed e in place", rep=case["rep"])
+        ctx.close("rsample_linear", d.rsample(base_samples=e), s1, (0.0, 1e-12), cls="tiny:same_base_samples_again:" + case["rep"])
+    ctx.cell({k_: v_ for k_, v_ in case.items() if k_ != "seed"}, nontrivial=True)
 
 
 def _basics(case, ctx, g):
@@ -226,9 +275,12 @@ def _basics(case, ctx, g):
     L = torch.stack(cols, -1)
     ctx.close("rsample_LLt", L @ L.transpose(-1, -2), C, "direct", cls=lay)
     e = util.randn(g, 5, *b, n, t)
+    e_keep = e.clone()
     got = d.rsample(base_samples=e)
-    ref = M + (L @ e.reshape(5, *b, nt, 1)).squeeze(-1).reshape(5, *b, n, t)
+    ref = M + (L @ e_keep.reshape(5, *b, nt, 1)).squeeze(-1).reshape(5, *b, n, t)
     ctx.close("rsample_linear", got, ref, "direct", cls=lay)
+    ctx.expect("base_samples_not_mutated", bool(torch.equal(e, e_keep)), "rsample(base_samples=e) changed e in place", layout=lay)
+    ctx.close("rsample_linear", d.rsample(base_samples=e), ref, "direct", cls=lay + ":same_base_samples_again")
     bs = d.get_base_samples(torch.Size([4]))
     ctx.expect("base_samples_shape", tuple(bs.shape) == (4, *b, n, t), f"{tuple(bs.shape)}")
     smp = d.rsample(torch.Size([2]))
